@@ -109,49 +109,41 @@ def coq_class_of(cls):
 # ---------------------------------------------------------------------------------------------
 # (key used in the Coq table, file under src/exactly_lib, qualified function name)
 CHAIN_SITES = [
+    # (key, file under src/exactly_lib, locator).  locator = ('name', qualified function name): the try statements of that function;
+    # ('calls', f): every try statement of the module whose BODY calls `f(` / `.f(`, wherever it lives (method, function, closure)
     ('extract_name', 'section_document/element_parsers/parser_for_dictionary_of_instructions.py',
-     'InstructionParserForDictionaryOfInstructions._extract_name'),
+     ('name', 'InstructionParserForDictionaryOfInstructions._extract_name')),
     ('instr_parse', 'section_document/element_parsers/parser_for_dictionary_of_instructions.py',
-     'InstructionParserForDictionaryOfInstructions._parse'),
-    ('seq_parsers', 'section_document/element_parsers/section_element_parsers.py', 'ParserFromSequenceOfParsers.parse'),
-    ('doc_parser', 'section_document/impl/document_parser.py', '_Impl.read_section_elements_until_next_section_or_eof'),
-    ('parser_apply', 'processing/processors.py', '_Parser.apply'),
-    ('source_reader', 'processing/processors.py', '_SourceReader.apply'),
-    ('accessor_apply', 'processing/processing_utils.py', 'AccessorFromParts._apply'),
-    ('processor', 'processing/processing_utils.py', 'ProcessorFromAccessorAndExecutor.apply'),
-    ('execute_element', 'execution/impl/single_instruction_executor.py', 'execute_element'),
-    ('action', 'execution/impl/phase_step_execution.py', 'execute_action_and_catch_internal_error_exception'),
-    ('act_parse', 'execution/partial_execution/impl/act_helper.py', 'ActHelper.parse'),
-    ('executor', 'execution/partial_execution/impl/executor.py', '_PartialExecutor.execute'),
-    ('executor_before_assert', 'execution/partial_execution/impl/executor.py', '_PartialExecutor._continue_from_before_assert'),
-    ('executor_cleanup', 'execution/partial_execution/impl/executor.py', '_PartialExecutor._finish_with_cleanup_phase'),
-    ('executor_sequence', 'execution/partial_execution/impl/executor.py', '_PartialExecutor._sequence_with_cleanup'),
-    ('suite_process_case', 'test_suite/processing.py', '_process_case'),
-    ('python_evaluate', 'impls/types/integer/evaluate_integer.py', 'python_evaluate'),
-    ('replace_sub', 'impls/types/string_transformer/impl/replace/impl.py', '_StrReplacer._sub'),
-    ('replace_process_incl', 'impls/types/string_transformer/impl/replace/impl.py', '_StrReplacerIncludingNewLines.process'),
-    ('replace_process_excl', 'impls/types/string_transformer/impl/replace/impl.py', '_StrReplacerExcludingNewLines.process'),
+     ('name', 'InstructionParserForDictionaryOfInstructions._parse')),
+    ('seq_parsers', 'section_document/element_parsers/section_element_parsers.py', ('name', 'ParserFromSequenceOfParsers.parse')),
+    ('doc_parser', 'section_document/impl/document_parser.py', ('name', '_Impl.read_section_elements_until_next_section_or_eof')),
+    ('parser_apply', 'processing/processors.py', ('name', '_Parser.apply')),
+    ('source_reader', 'processing/processors.py', ('name', '_SourceReader.apply')),
+    ('accessor_apply', 'processing/processing_utils.py', ('name', 'AccessorFromParts._apply')),
+    ('processor', 'processing/processing_utils.py', ('name', 'ProcessorFromAccessorAndExecutor.apply')),
+    ('execute_element', 'execution/impl/single_instruction_executor.py', ('name', 'execute_element')),
+    ('action', 'execution/impl/phase_step_execution.py', ('name', 'execute_action_and_catch_internal_error_exception')),
+    ('act_parse', 'execution/partial_execution/impl/act_helper.py', ('name', 'ActHelper.parse')),
+    ('executor', 'execution/partial_execution/impl/executor.py', ('name', '_PartialExecutor.execute')),
+    ('executor_before_assert', 'execution/partial_execution/impl/executor.py', ('name', '_PartialExecutor._continue_from_before_assert')),
+    ('executor_cleanup', 'execution/partial_execution/impl/executor.py', ('name', '_PartialExecutor._finish_with_cleanup_phase')),
+    ('executor_sequence', 'execution/partial_execution/impl/executor.py', ('name', '_PartialExecutor._sequence_with_cleanup')),
+    ('suite_process_case', 'test_suite/processing.py', ('name', '_process_case')),
+    ('python_evaluate', 'impls/types/integer/evaluate_integer.py', ('calls', 'eval')),
+    ('replace_sub', 'impls/types/string_transformer/impl/replace/impl.py', ('calls', 'sub')),
 ]
+TIE_REFUSED = {}  # site key -> why the source could not be read structurally (recorded in the evidence; the behavioural tables tie it)
 
 
 class _Tries(ast.NodeVisitor):
-    """the `try` statements of ONE function body, in source order (nested functions included, nested classes not
-    expected); each as the list of its clauses; each clause as the list of the class expressions it names"""
+    """the `try` statements with handlers of ONE function body, in source order (nested functions included)"""
 
     def __init__(self):
-        self.tries = []
+        self.nodes = []
 
     def visit_Try(self, node):
-        clauses = []
-        for h in node.handlers:
-            if h.type is None:
-                clauses.append(['<bare>'])
-            elif isinstance(h.type, ast.Tuple):
-                clauses.append([_dotted(e) for e in h.type.elts])
-            else:
-                clauses.append([_dotted(h.type)])
-        if clauses:  # try/finally without handlers catches nothing
-            self.tries.append(clauses)
+        if node.handlers:  # try/finally without handlers catches nothing
+            self.nodes.append(node)
         self.generic_visit(node)
 
     def visit_TryStar(self, node):
@@ -194,31 +186,75 @@ def _resolve_name_in_module(path, dotted):
     return obj
 
 
-def read_chains():
-    """{site key: [try statements] } with classes as Coq constructors; fail-closed"""
-    out = {}
-    for key, rel, qual in CHAIN_SITES:
-        path = os.path.join(common.REPO, 'src', 'exactly_lib', rel)
-        tree = ast.parse(open(path).read(), path)
-        try:
-            fn = _find_function(tree, qual)
-        except KeyError:
-            if key == 'replace_sub':  # the helper does not exist before the repair: no try statement at all
-                out[key] = []
-                continue
-            raise
-        v = _Tries()
-        for stmt in fn.body:
-            v.visit(stmt)
-        tries = []
-        for clauses in v.tries:
-            cs = []
-            for names in clauses:
-                if names == ['<bare>']:
-                    cs.append(['EBaseException'])
+class TieBroken(Exception):
+    """the source says something the model cannot be compared with: fail closed"""
+
+
+def _tries_calling(tree, fname):
+    """every Try node of the module whose body (not its handlers) contains a call of fname( or .fname("""
+    found = []
+    for node in ast.walk(tree):
+        if isinstance(node, ast.Try) and node.handlers:
+            for stmt in node.body:
+                for n in ast.walk(stmt):
+                    if isinstance(n, ast.Call) and (isinstance(n.func, ast.Attribute) and n.func.attr == fname
+                                                    or isinstance(n.func, ast.Name) and n.func.id == fname):
+                        found.append(node)
+                        break
                 else:
-                    cs.append([coq_class_of(_resolve_name_in_module(path, n)) for n in names])
-            tries.append(cs)
+                    continue
+                break
+    return found
+
+
+def _clauses_of(try_node, path):
+    cs = []
+    for h in try_node.handlers:
+        if h.type is None:
+            cs.append(['EBaseException'])
+        else:
+            names = [_dotted(e) for e in h.type.elts] if isinstance(h.type, ast.Tuple) else [_dotted(h.type)]
+            cs.append([coq_class_of(_resolve_name_in_module(path, n)) for n in names])
+    return cs
+
+
+def _catch_signature(clauses):
+    """what a try statement catches, clause structure ignored (merging / splitting clauses is harmless)"""
+    real = dict((c, real_class(q)) for c, q in CLASSES)
+    named = [real[c] for cl in clauses for c in cl]
+    return tuple(sorted(c for c, k in real.items() if any(issubclass(k, n) for n in named)))
+
+
+def read_chains():
+    """{site key: [try statements] or None}; classes as Coq constructors.  None = tie refused for that site: the source could not be
+    read the way the site is described (function renamed / restructured, class outside the model); recorded in TIE_REFUSED and in the
+    evidence, not an alarm - the behavioural tables (route table, pyeval, replace_sub) tie what the code DOES.  Raises TieBroken
+    only for the structural sites when no try statement around the call exists any more or two of them disagree."""
+    out = {}
+    TIE_REFUSED.clear()
+    for key, rel, (how, what) in CHAIN_SITES:
+        path = os.path.join(common.REPO, 'src', 'exactly_lib', rel)
+        try:
+            tree = ast.parse(open(path).read(), path)
+            if how == 'name':
+                fn = _find_function(tree, what)
+                v = _Tries()
+                for stmt in fn.body:
+                    v.visit(stmt)
+                nodes = v.nodes
+            else:
+                nodes = _tries_calling(tree, what)
+            tries = [_clauses_of(n, path) for n in nodes]
+        except (KeyError, ValueError, TypeError, OSError, SyntaxError, AttributeError, ImportError) as ex:
+            TIE_REFUSED[key] = '%s: %s' % (type(ex).__name__, ex)
+            out[key] = None
+            continue
+        if how == 'calls':
+            if not tries:
+                raise TieBroken('%s: no try statement around a call of %s( is left in %s' % (key, what, rel))
+            if len({_catch_signature(t) for t in tries}) != 1:
+                raise TieBroken('%s: the try statements around %s( in %s catch different things: %r' % (key, what, rel, tries))
+            tries = tries[:1]
         out[key] = tries
     return out
 
@@ -584,36 +620,64 @@ def pyeval_table():
 
 
 def replace_sub_table():
-    """every raisable modelled class raised by Pattern.sub inside the real replacer objects"""
-    from exactly_lib.impls.types.string_transformer.impl.replace import impl as rimpl
+    """every raisable modelled class raised by the `sub` method of the compiled regex while the real `replace` transformer - built
+    by the public parser from `replace a x` - is applied.  Only `re.compile` of parse_regex is wrapped; how the replacer is
+    structured internally (classes, functions, closures) does not matter.  -> rows, or None = tie refused (recorded)"""
+    from exactly_lib.impls.types.regex import parse_regex
+    from exactly_lib.impls.types.string_transformer import parse_string_transformer
     from exactly_lib.test_case.hard_error import HardErrorException
+    real_re = parse_regex.re
+    tmp = tempfile.mkdtemp(prefix='c18-rst-', dir=common.work_dir(PROP))
+    env = impl.app_env(tmp)
+    state = {'spec': None, 'called': 0}
+
+    class WrappedPattern:
+        def __init__(self, real):
+            self._real = real
+
+        def sub(self, repl, string, count=0):
+            state['called'] += 1
+            raise make_exception(state['spec'])
+
+        def __getattr__(self, name):
+            return getattr(self._real, name)
+
+    class ReShim:
+        def compile(self, pattern, flags=0):
+            return WrappedPattern(real_re.compile(pattern, flags))
+
+        def __getattr__(self, name):
+            return getattr(real_re, name)
+
     rows = []
-    for c, q in CLASSES:
-        if c in NOT_RAISABLE:
-            continue
-        spec = c if c not in PAYLOADS else '%s:%s' % (c, PAYLOADS[c][0])
-
-        class Rx:
-            def sub(self, repl, s):
-                raise make_exception(spec)
-
-        seen = set()
-        for cls, line in ((rimpl._StrReplacerIncludingNewLines, 'a\n'), (rimpl._StrReplacerExcludingNewLines, 'a\n'),
-                          (rimpl._StrReplacerExcludingNewLines, 'a')):
-            try:
-                cls(Rx(), 'x').process(line)
-                raise AssertionError('replacer returned')
-            except HardErrorException as ex:
-                seen.add('hard')
-            except BaseException as ex:
-                if isinstance(ex, KeyboardInterrupt):
-                    raise
-                if coq_class_of(type(ex)) != c:
-                    raise AssertionError('replacer: %s came out as %r' % (c, ex))
-                seen.add('same')
-        if len(seen) != 1:
-            raise AssertionError('the replacer classes disagree on %s: %s' % (c, seen))
-        rows.append((c, seen == {'hard'}))
+    parse_regex.re = ReShim()
+    try:
+        for c, q in CLASSES:
+            if c in NOT_RAISABLE:
+                continue
+            state['spec'] = c if c not in PAYLOADS else '%s:%s' % (c, PAYLOADS[c][0])
+            seen = set()
+            for src, text in (('replace a x', 'a\n'), ('replace -preserve-new-lines a x', 'a\n'), ('replace -preserve-new-lines a x', 'a')):
+                state['called'] = 0
+                try:
+                    tr = impl.primitive_of(impl.parse_full(parse_string_transformer, src), env)
+                    tr.transform(impl.str_source(text, env)).contents().as_str
+                    seen.add('returned')
+                except HardErrorException:
+                    seen.add('hard')
+                except BaseException as ex:
+                    if isinstance(ex, KeyboardInterrupt):
+                        raise
+                    seen.add('same' if coq_class_nearest(type(ex)) == c else 'other:' + type(ex).__name__)
+                if state['called'] == 0:
+                    seen.add('sub-not-called')
+            if seen - {'hard', 'same'} or len(seen) != 1:
+                TIE_REFUSED['replace_sub (behavioural)'] = 'class %s: %s' % (c, sorted(seen))
+                return None
+            rows.append((c, seen == {'hard'}))
+    finally:
+        parse_regex.re = real_re
+        shutil.rmtree(tmp, ignore_errors=True)
     return rows
 
 
@@ -635,16 +699,22 @@ def gen_tables(ctx):
 
     ch = []
     for key, _, _ in CHAIN_SITES:
+        if chains[key] is None:
+            ch.append('("%s", None)' % key)
+            continue
         tries = cl([cl([cl(names, 'pyexc') for names in clauses], '(list pyexc)') for clauses in chains[key]],
                    '(list (list pyexc))')
-        ch.append('("%s", %s)' % (key, tries))
-    lines.append('Definition gen_chains : list (string * list (list (list pyexc))) :=\n  %s.\n' % clist(ch).replace('; (', ';\n   ('))
+        ch.append('("%s", Some %s)' % (key, tries))
+    lines.append('(* None = tie refused for that function (it could not be found / read as described); see the evidence *)')
+    lines.append('Definition gen_chains : list (string * option (list (list (list pyexc)))) :=\n  %s.\n' % clist(ch).replace('; (', ';\n   ('))
     lines.append('Definition gen_subclass : list (pyexc * list pyexc) :=\n  %s.\n' % clist(
         ['(%s, %s)' % (c, clist(ds)) for c, ds in subclass_table()]).replace('; (', ';\n   ('))
     lines.append('Definition gen_pyeval : list (pyexc * bool) :=\n  %s.\n' % clist(
         ['(%s, %s)' % (c, cbool(b)) for c, b in pyeval_table()]))
-    lines.append('Definition gen_replace_sub : list (pyexc * bool) :=\n  %s.\n' % clist(
-        ['(%s, %s)' % (c, cbool(b)) for c, b in replace_sub_table()]))
+    rst = replace_sub_table()
+    lines.append('Definition gen_replace_sub : list (pyexc * bool) :=\n  %s.\n' % (clist(
+        ['(%s, %s)' % (c, cbool(b)) for c, b in rst]) if rst else '(@nil (pyexc * bool))'))
+    ctx.c18_tie_refused = dict(TIE_REFUSED)
     lines.append('Definition gen_route : list (site * tc_status * exc * res pres) :=\n  [%s].\n' % ';\n   '.join(
         '(%s, %s, %s, %s)' % (site, mode, c_exc(spec), obs) for site, mode, spec, obs, _ in rows))
     common.write_if_changed(os.path.join(common.COQ, 'Gen', 'C18_tables.v'), '\n'.join(lines))
@@ -1156,6 +1226,7 @@ def run(ctx, res):
     res.extra['disagreement_samples'] = [{'case': d.case, 'detail': d.detail} for d in res.disagreements[:5]]
     res.rule = RULE
     res.extra['route_table_rows'] = getattr(ctx, 'c18_route_rows', None)
+    res.extra['source_tie_refused'] = getattr(ctx, 'c18_tie_refused', {})
 
 
 def reproduce_hang(ctx, res):
@@ -1916,6 +1987,15 @@ DIGIT_LIKE = (DIGIT_LIKE_CHARS + [c * 2 for c in DIGIT_LIKE_CHARS[:12]] + ['1' +
 FORMAT_BITS = ['{', '}', '{0}', '{x}', '{}', '{{', '%s', '%d', '%(x)s', '%']
 BAD_INTS = BAD_INTS + DIGIT_LIKE + ['(1}', '{1', '2}', '"{1 + 2"', '[1}', '"1 + {x}"', '{0}', '{}', '"{x}"', '%s', '"%d"', '"1 % s"', '"{"',
                                     '"}"', '"{{1}}"', '"(1 + 2}}"', '"%(x)s"', "\"{'a': 1}['b']\"", '"1}{"']
+# well-formed but extreme integers: just above the machine word sizes (2**31, 2**63, 2**64), beyond them, and their negatives - they
+# pass validation and must also be APPLIED without an internal error
+EXTREME_INTS = ['2**31', '2**31+1', '2147483648', '2**32', '2**63-1', '2**63', '2**63+1', '9223372036854775808', '2**64', '2**64+1',
+                '18446744073709551616', '2**70', '10**30', '-1', '-2**31-1', '-2**63', '-2**63-1', '-2**64', '-2**70', '"-(2**70)"', '0']
+BAD_INTS = BAD_INTS + [v for v in EXTREME_INTS if v not in BAD_INTS]
+# LINE-NUMBER-RANGEs of `filter -line-nums`: every form (N  :N  N:  N:M) with ordinary, negative and extreme limits
+_LIMITS = ['1', '2', '-1', '-2', '0', '2**31', '2**63', '2**64', '2**70', '-2**64', '-2**70', '10**30', '-10**30']
+LINE_NUM_RANGES = sorted({f for n in _LIMITS for f in (n, ':' + n, n + ':')} | {a + ':' + b for a in _LIMITS for b in _LIMITS
+                                                                                  if a in ('1', '2', '-2', '2**70', '-2**70') or b in ('-2', '2**64', '-2**70')})
 BAD_REGEXES = ["'('", "'[a'", "'*a'", "'a{2,1}'", "'(?P<n>a)(?P<n>b)'", "'\\'", "'(?z)'", "'a**'", "'(?<=a+)b'", "'[z-a]'", "'\\1'",
                "'(?i'", "')'", "'\\p{L}'", "'(?P<n'", "'(?P<1>a)'", "'\\g<1>'", "'a{99999999999}'", "'(?#'", "'\\N{no such}'",
                "'[[:alpha:]]'", "'(?P=zz)'", "'\\8'", "'x(?=y'", "'(' ", '@[UNDEFINED_SYMBOL]@', "''", '"\\"', "'(?-i)a'", "'((a)'",
@@ -2406,7 +2486,18 @@ POSITIONS = {
         '[setup]\nfile f.txt = -contents-of -rel-home in.txt -transformed-by filter -line-nums {V}\n',
         '[assert]\ndir-contents -rel-home d : num-files < {V}\n',
         '[setup]\ndef integer-matcher I = > {V}\n[assert]\nexit-code I\n',
+        '[assert]\ndir-contents -rel-home d : -recursive -min-depth {V} is-empty\n',
+        '[setup]\ntimeout = {V}\n[act]\n$ true\n[assert]\nexit-code == 0\n',
+        '[setup]\nfile f.txt = -contents-of -rel-home in.txt -transformed-by filter line-num <= {V}\n',
+        '[assert]\ncontents -rel-home in.txt : ! num-lines != {V}\n',
         '[setup]\ndef string N = {V}\n[assert]\nexit-code == @[N]@\n',
+    ],
+    'linenums': [
+        '[setup]\nfile f.txt = -contents-of -rel-home in.txt -transformed-by filter -line-nums {V}\n',
+        '[act]\n$ echo a; echo b; echo c\n[assert]\nstdout -transformed-by filter -line-nums {V} is-empty\n',
+        '[setup]\ndef string R = {V}\n[cleanup]\nfile f.txt = -contents-of -rel-home in.txt -transformed-by filter -line-nums @[R]@\n',
+        '[assert]\ncontents -rel-home in.txt : -transformed-by filter -line-nums 1 {V} 2: num-lines >= 0\n',
+        '[setup]\ndef text-transformer T = filter -line-nums {V}\n[before-assert]\nfile f.txt = -contents-of -rel-home empty.txt -transformed-by T\n',
     ],
     'glob': [
         '[assert]\nexists -rel-home d : name {V}\n',
@@ -2475,13 +2566,14 @@ def systematic_cases(ctx):
     final newline and followed by another line"""
     rng = ctx.rng
     out = []
-    for role, bad in (('regex', BAD_REGEXES), ('int', BAD_INTS), ('glob', BAD_GLOBS), ('repl', BAD_REPLS), ('fname', BAD_FNAMES)):
+    for role, bad in (('regex', BAD_REGEXES), ('int', BAD_INTS), ('glob', BAD_GLOBS), ('repl', BAD_REPLS), ('fname', BAD_FNAMES),
+                      ('linenums', LINE_NUM_RANGES)):
         for v in bad:
             ts = POSITIONS[role] if not ctx.quick else rng.sample(POSITIONS[role], 2)
             for t in ts:
                 out.append(('systematic %s' % role, t.replace('{V}', v.strip() if role != 'regex' else v), None))
             # the same value made sandbox dependent (validated post-sds): quick one position, thorough every position
-            if '"' in v or '\n' in v or '\x00' in v:
+            if '"' in v or '\n' in v or '\x00' in v or role == 'linenums':
                 continue
             for t in (POSITIONS[role] if not ctx.quick else rng.sample(POSITIONS[role], 1)):
                 sym = rng.choice(SDS_SYMBOLS)
